@@ -202,6 +202,9 @@ static J run(const J& c)
         return out;
     }
     bool moved = c.has("moved") && c["moved"].b;
+    std::vector<long long> letters_now;
+    for (std::size_t i = 0; i < cfg["decl"].size(); i++)
+        letters_now.push_back(cfg["decl"][i]["letter"].num());
     for (std::size_t k = 0; k < c["calls"].size(); k++)
     {
         if (moved)
@@ -221,6 +224,35 @@ static J run(const J& c)
         }
         if (per_call)
             establish(c["envs"][k]);
+        if (c.has("letters"))
+        {
+            // the application goes on declaring between the calls: short names attached to options that had none
+            // (declaring an existing name again with the same kind returns the same option object)
+            const J& want = c["letters"][k];
+            for (std::size_t i = 0; i < want.size() && i < letters_now.size(); i++)
+            {
+                if (want[i].num() == letters_now[i])
+                    continue;
+                const J& d = cfg["decl"][i];
+                std::string name = d["name"].as_bytes(), kind = d["kind"].str(), sn(1, static_cast<char>(want[i].num()));
+                try
+                {
+                    if (kind == "opt")
+                        p->option(name, "an option").short_name(sn);
+                    else if (kind == "multi")
+                        p->multi_option(name, "a multi option").short_name(sn);
+                    else
+                        p->toggle(name, "a toggle").short_name(sn);
+                }
+                catch (const std::exception& e)
+                {
+                    out.set("outcome", "declare_failed");
+                    out.set("what", e.what());
+                    return out;
+                }
+                letters_now[i] = want[i].num();
+            }
+        }
         auto toks = c["calls"][k].as_bytes_list();
         std::vector<const char*> argv;
         argv.push_back("prog");
